@@ -424,9 +424,18 @@ def Store.load (st : Store) (loc : Nat) : List Sig :=
 /-- `locations()`: distinct, in order of first appearance -/
 def locations (rows : List Row) : List Nat := (rows.map (·.loc)).eraseDups
 
+/-- map with a function that may raise: the first exception aborts -/
+def mapE {α β : Type} (f : α → Except Err β) : List α → Except Err (List β)
+  | [] => .ok []
+  | x :: xs => match f x with
+    | .error e => .error e
+    | .ok y => match mapE f xs with
+      | .error e => .error e
+      | .ok ys => .ok (y :: ys)
+
 /-- `CollectionManifest.to_picklist` (coltype `manifest`); id 0 is reserved for these -/
 def toPicklist (rows : List Row) : Except Err Picklist :=
-  match rows.mapM (rowValue .manifest) with
+  match mapE (rowValue .manifest) rows with
   | .ok vs => .ok { id := 0, coltype := .manifest, exclude := false, pickset := vs.eraseDups }
   | .error e => .error e
 
@@ -441,17 +450,22 @@ inductive Coll where
   | sbt (leaves : List Sig) (pls : List Picklist)
   | sbtM (rows : List Row) (store : Store) (leaves : List Sig) (pls : List Picklist)
   | lca (ksize : Nat) (mol : Mol) (scaled : Nat) (sigs : List Sig) (pls : List Picklist)
+      (cache : Option (List Sig))   -- the `_signatures` cached_property, once an iteration or a search computed it
   | sqlite (all : List (Row × Sig)) (sel : Crit)
 deriving Repr
 
-/-- load each location of `rows`, keep what passes the manifest-derived picklist
-    (`StandaloneManifestIndex._signatures_with_internal`) -/
+/-- load each listed location, keep what passes the manifest-derived picklist
+    (`StandaloneManifestIndex._signatures_with_internal`): `load_file_as_index(iloc).select(picklist=pl)` is a
+    MultiIndex over the file, i.e. the row path -/
 def loadViaPicklist (pl : Picklist) (locs : List Nat) (store : Store) : Except Err (List Sig) :=
-  locs.foldlM (fun acc loc =>
-    -- `load_file_as_index(iloc).select(picklist=pl)`: a MultiIndex over the file, row path
+  match locs with
+  | [] => .ok []
+  | loc :: t =>
     match filterE (fun s => pl.matchesRow (mkRow s loc)) (store.load loc) with
-    | .ok l => .ok (acc ++ l)
-    | .error e => .error e) []
+    | .error e => .error e
+    | .ok l => match loadViaPicklist pl t store with
+      | .error e => .error e
+      | .ok r => .ok (l ++ r)
 
 /-- rows of an SBT manifest after `for picklist in self.picklists: manifest = manifest.select_to_manifest(picklist=picklist)` -/
 def sbtRows (rows : List Row) : List Picklist → Except Err (List Row)
@@ -459,6 +473,13 @@ def sbtRows (rows : List Row) : List Picklist → Except Err (List Row)
   | pl :: t => match filterE (fun r => rowPasses r { picklist := some pl }) rows with
     | .ok r => sbtRows r t
     | .error e => .error e
+
+/-- `LCA_Database._signatures`: rebuilt from the inverted index — keeping what passes the picklists *held at that
+    moment* — unless an earlier iteration or search already cached it (`select` does not invalidate the cache) -/
+def lcaCached (sigs : List Sig) (pls : List Picklist) (cache : Option (List Sig)) : List Sig :=
+  match cache with
+  | some l => l
+  | none => sigs.filter (passesAll pls)
 
 /-- `signatures()` -/
 def Coll.signatures : Coll → Except Err (List Sig)
@@ -486,7 +507,9 @@ def Coll.signatures : Coll → Except Err (List Sig)
     match sbtRows rows pls with
     | .ok r => .ok ((locations r).flatMap (fun loc => (store.load loc).take 1))
     | .error e => .error e
-  | .lca _ _ _ sigs pls => .ok (sigs.filter (passesAll pls))
+  | .lca _ _ _ sigs pls cache =>
+    -- `for v in self._signatures.values(): if passes_all_picklists(v, self.picklists): yield v`
+    .ok ((lcaCached sigs pls cache).filter (passesAll pls))
   | .sqlite all sel =>
     match filterE (fun rs => sqlRowPasses rs.1 sel) all with
     | .ok l => .ok (l.map (·.2))
@@ -580,14 +603,14 @@ def Coll.select (x : Coll) (c : Crit) : Coll × Except Err Coll :=
         | some pl =>
           let x' := Coll.sbtM rows store leaves (pls ++ [pl])
           if pls.length + 1 > 1 then (x', .error .value) else (x', .ok x')
-  | .lca k m sc sigs pls =>
+  | .lca k m sc sigs pls cache =>
     match lcaChecks k m sc c with
     | .error e => (x, .error e)
     | .ok _ =>
       match c.picklist with
       | none => (x, .ok x)
       | some pl =>
-        let x' := Coll.lca k m sc sigs (pls ++ [pl])
+        let x' := Coll.lca k m sc sigs (pls ++ [pl]) cache
         if pls.length + 1 > 1 then (x', .error .value) else (x', .ok x')
   | .sqlite all sel =>
     -- `_select(self, *, num=0, track_abundance=False, abund=None, **kwargs)`: `num` and `abund` are taken out of
@@ -601,6 +624,12 @@ def Coll.select (x : Coll) (c : Crit) : Coll × Except Err Coll :=
             | .ok _ => .ok (.sqlite all d)
             | .error e => .error e
           else .ok (.sqlite all d))
+
+/-- the collection as an iteration (`signatures()`) or a search leaves it: an LCA database now holds its
+    `_signatures` cache; nothing else keeps state -/
+def Coll.touch : Coll → Coll
+  | .lca k m sc sigs pls cache => .lca k m sc sigs pls (some (lcaCached sigs pls cache))
+  | x => x
 
 /-! ### search -/
 
@@ -624,7 +653,9 @@ def Coll.find (x : Coll) (q : Sig) : Except Err (List Sig) :=
     -- tree search over *all* leaves, picklists applied to the hits
     .ok ((leaves.filter (overlaps q)).filter (passesAll pls))
   | .sbtM _ _ leaves pls => .ok ((leaves.filter (overlaps q)).filter (passesAll pls))
-  | .lca _ _ _ sigs pls => .ok ((sigs.filter (overlaps q)).filter (passesAll pls))
+  | .lca _ _ _ sigs pls cache =>
+    -- hits come from the inverted index; `self._signatures.get(idx)` is `None` for what the cache dropped
+    .ok (((lcaCached sigs pls cache).filter (overlaps q)).filter (passesAll pls))
   | .sqlite all sel =>
     -- the hash lookup runs over the whole database; hits outside `selected_ids` (the `_id`s of `manifest.rows`,
     -- i.e. SQL conditions + picklist) are skipped, then the picklist is applied to the loaded sketch again
